@@ -235,6 +235,11 @@ pub fn channel(rng: &mut StdRng, family: &str, bps: usize, n: usize) -> Vec<i32>
                 *x = clampw(y as i64, bps);
             }
         }
+        "quietnoise" => {
+            // a few levels only: Rice-coded at 3..5 bits per sample, far below any width
+            let a = rng.gen_range(3..=12i64);
+            v.iter_mut().for_each(|x| *x = rng.gen_range(-a..=a) as i32);
+        }
         "noise_lo" => {
             let a = (hi >> 10).max(1);
             v.iter_mut().for_each(|x| *x = rng.gen_range(-a..=a) as i32);
@@ -328,6 +333,32 @@ pub fn channel(rng: &mut StdRng, family: &str, bps: usize, n: usize) -> Vec<i32>
                 let a = if (t / period) % 2 == 0 { quiet } else { loud };
                 *x = rng.gen_range(-a..=a) as i32;
             }
+        }
+        "nearverb2" => {
+            // Non-stationary noise whose coded size is within a few hundred bits of the verbatim size on LARGE
+            // blocks: three full-scale 64-sample stretches, then a quieter one (different Rice parameters per
+            // partition, predictor warm-up, partition order > 0).  The quiet level is searched with the Rice cost
+            // formula so that the best of order 0 / order 1 lands in the window [-300, +900] bits around verbatim.
+            let verb = (n * bps) as i64;
+            let mut best: Option<(i64, Vec<i32>)> = None;
+            let target = rng.gen_range(-300i64..=900);
+            for step in 0..48 {
+                let level = ((hi as f64) * (0.02 + 0.98 * (step as f64) / 47.0)) as i64;
+                let mut c = vec![0i32; n];
+                for (t, x) in c.iter_mut().enumerate() {
+                    let a = if (t / 64) % 4 == 3 { level.max(1) } else { hi };
+                    *x = rng.gen_range(-a..=a) as i32;
+                }
+                let d1: Vec<i32> = (0..n).map(|t| if t == 0 { 0 } else { clampw(c[t] as i64 - c[t - 1] as i64, 31) }).collect();
+                let cost0 = *rice_cost_curve(&c, 14).iter().min().unwrap() as i64;
+                let cost1 = *rice_cost_curve(&d1, 14).iter().min().unwrap() as i64 + bps as i64;
+                let cost = cost0.min(cost1) + 6 + 8;
+                let dist = (cost - verb - target).abs();
+                if best.as_ref().map_or(true, |(d, _)| dist < *d) {
+                    best = Some((dist, c));
+                }
+            }
+            v = best.unwrap().1;
         }
         "fullsine" => {
             // exact full-scale sinusoid: predictors overshoot the sample range (sum of products beyond
